@@ -43,11 +43,27 @@ impl Extra {
         match self {
             Extra::NoDebug => (String::new(), format!("ND({k})"), "?".into()),
             Extra::RefNoDebug => (String::new(), format!("&ND({k})"), "?".into()),
-            Extra::RefU32 => (String::new(), format!("&{}u32", 700 + k), format!("{}", 700 + k)),
-            Extra::RefRefU32 => (String::new(), format!("&&{}u32", 800 + k), format!("{}", 800 + k)),
-            Extra::MutU32 => (format!("let mut x{k}: u32 = {};\n", 900 + k), format!("&mut x{k}"), format!("{}", 900 + k)),
+            Extra::RefU32 => (
+                String::new(),
+                format!("&{}u32", 700 + k),
+                format!("{}", 700 + k),
+            ),
+            Extra::RefRefU32 => (
+                String::new(),
+                format!("&&{}u32", 800 + k),
+                format!("{}", 800 + k),
+            ),
+            Extra::MutU32 => (
+                format!("let mut x{k}: u32 = {};\n", 900 + k),
+                format!("&mut x{k}"),
+                format!("{}", 900 + k),
+            ),
             Extra::GenericNoDebug => (String::new(), format!("{}u16", 60 + k), "?".into()),
-            Extra::GenericDebug => (String::new(), format!("-{}i16", 70 + k), format!("-{}", 70 + k)),
+            Extra::GenericDebug => (
+                String::new(),
+                format!("-{}i16", 70 + k),
+                format!("-{}", 70 + k),
+            ),
             Extra::SliceOfNoDebug => (String::new(), format!("&[ND({k}), ND(1)][..]"), "?".into()),
         }
     }
@@ -90,7 +106,13 @@ impl MsgCase {
         let dom = self.pattern.domain();
         let rej: Vec<&Vec<Val>> = dom.iter().filter(|t| !self.pattern.accepts(t)).collect();
         let acc: Vec<&Vec<Val>> = dom.iter().filter(|t| self.pattern.accepts(t)).collect();
-        let pick = |v: &Vec<&Vec<Val>>| if v.is_empty() { None } else { Some(v[self.pick as usize % v.len()].clone()) };
+        let pick = |v: &Vec<&Vec<Val>>| {
+            if v.is_empty() {
+                None
+            } else {
+                Some(v[self.pick as usize % v.len()].clone())
+            }
+        };
         (pick(&rej), pick(&acc))
     }
     /// the macro's pattern including the `_` for the extras
@@ -108,7 +130,13 @@ impl MsgCase {
         c.macro_args()
     }
     pub fn call_debug(&self, tuple: &[Val]) -> String {
-        let mut parts: Vec<String> = self.pattern.tys.iter().zip(tuple.iter()).map(|(t, v)| t.debug_string(v)).collect();
+        let mut parts: Vec<String> = self
+            .pattern
+            .tys
+            .iter()
+            .zip(tuple.iter())
+            .map(|(t, v)| t.debug_string(v))
+            .collect();
         for (k, e) in self.extras.iter().enumerate() {
             parts.push(e.arg(k).2);
         }
@@ -130,7 +158,11 @@ pub fn doc_pat(p: &P, ty: Ty) -> String {
             P::Or(_) => format!("{n} @ ({})", doc_pat(s, ty)),
             _ => format!("{n} @ {}", doc_pat(s, ty)),
         },
-        P::Or(alts) => alts.iter().map(|a| doc_pat(a, ty)).collect::<Vec<_>>().join(" | "),
+        P::Or(alts) => alts
+            .iter()
+            .map(|a| doc_pat(a, ty))
+            .collect::<Vec<_>>()
+            .join(" | "),
         P::Some(s) => format!("Some({})", doc_pat(s, Ty::U8)),
         P::Pair(a, b) => format!("({}, {})", doc_pat(a, Ty::U8), doc_pat(b, Ty::U8)),
         P::Slice(pre, rest, suf) => {
@@ -175,13 +207,23 @@ fn strip_ansi(s: &str) -> String {
 impl MsgCase {
     pub fn doc_text(&self) -> String {
         let alt = |a: &Vec<P>| {
-            let mut parts: Vec<String> = a.iter().zip(self.pattern.tys.iter()).map(|(p, t)| doc_pat(p, *t)).collect();
+            let mut parts: Vec<String> = a
+                .iter()
+                .zip(self.pattern.tys.iter())
+                .map(|(p, t)| doc_pat(p, *t))
+                .collect();
             for _ in &self.extras {
                 parts.push("_".into());
             }
             format!("({})", parts.join(", "))
         };
-        let mut s = self.pattern.alts.iter().map(alt).collect::<Vec<_>>().join(" | ");
+        let mut s = self
+            .pattern
+            .alts
+            .iter()
+            .map(alt)
+            .collect::<Vec<_>>()
+            .join(" | ");
         if self.pattern.guard.is_some() {
             s.push_str(" if {guard}");
         }
@@ -218,7 +260,13 @@ impl MsgCase {
 pub fn source(c: &MsgCase) -> String {
     let (gdecl, gargs) = c.generic_decl();
     let n_pat = c.pattern.tys.len();
-    let mut params: Vec<String> = c.pattern.tys.iter().enumerate().map(|(k, t)| format!("a{k}: {}", t.rust())).collect();
+    let mut params: Vec<String> = c
+        .pattern
+        .tys
+        .iter()
+        .enumerate()
+        .map(|(k, t)| format!("a{k}: {}", t.rust()))
+        .collect();
     for (k, e) in c.extras.iter().enumerate() {
         params.push(format!("x{k}: {}", e.ty()));
     }
@@ -227,7 +275,14 @@ pub fn source(c: &MsgCase) -> String {
     s.push_str(&format!(
         "#[unimock(api=M)]\npub trait Tr{gdecl} {{\n    fn f(&self{params_s}) -> u8;\n    fn g(&self, z: u8) -> u8;\n}}\n\n"
     ));
-    let wt = if gargs.is_empty() { String::new() } else { format!(".with_types::{}()", gargs.replace('<', "<").replace('>', ">")) };
+    let wt = if gargs.is_empty() {
+        String::new()
+    } else {
+        format!(
+            ".with_types::{}()",
+            gargs.replace('<', "<").replace('>', ">")
+        )
+    };
     let wt = wt.replace("::<", "::<");
     let pat = c.macro_args();
     let (rej, acc) = c.rejected_and_accepted();
@@ -245,13 +300,18 @@ pub fn source(c: &MsgCase) -> String {
             }
             args.push(expr);
         }
-        format!("<Unimock as Tr{gargs}>::f(&u{})", args.iter().map(|a| format!(", {a}")).collect::<String>())
+        format!(
+            "<Unimock as Tr{gargs}>::f(&u{})",
+            args.iter().map(|a| format!(", {a}")).collect::<String>()
+        )
     };
     let _ = n_pat;
     // every scenario: { build mock; call under catch_unwind; record message }
     let scenario = |tag: &str, setup: &str, tuple: &Vec<Val>, twice: bool, s: &mut String| {
         s.push_str("    {\n");
-        s.push_str(&format!("        let u = Unimock::new({setup}).no_verify_in_drop();\n"));
+        s.push_str(&format!(
+            "        let u = Unimock::new({setup}).no_verify_in_drop();\n"
+        ));
         let mut body = String::new();
         let callexpr = call(tuple, &mut body);
         s.push_str(&body);
@@ -265,13 +325,69 @@ pub fn source(c: &MsgCase) -> String {
     let f = format!("M::f{wt}");
     let g = format!("M::g{wt}");
     if let Some(t) = &rej {
-        scenario("nomatch", &format!("{f}.each_call(matching!({pat}) /*MARK_A*/).returns(1u8)"), t, false, &mut s);
-        scenario("ordered-inputs", &format!("{f}.next_call(matching!({pat}) /*MARK_B*/).returns(1u8)"), t, false, &mut s);
+        scenario(
+            "nomatch",
+            &format!("{f}.each_call(matching!({pat}) /*MARK_A*/).returns(1u8)"),
+            t,
+            false,
+            &mut s,
+        );
+        scenario(
+            "ordered-inputs",
+            &format!("{f}.next_call(matching!({pat}) /*MARK_B*/).returns(1u8)"),
+            t,
+            false,
+            &mut s,
+        );
     }
     if let Some(t) = &acc {
-        scenario("explicit", &format!("{f}.each_call(matching!({pat}) /*MARK_C*/).panics(\"boom-text\")"), t, false, &mut s);
-        scenario("twice", &format!("{f}.some_call(matching!({pat}) /*MARK_D*/).returns(1u8)"), t, true, &mut s);
-        scenario("nooutput", &format!("{f}.stub(|each| {{ each.call(matching!({pat}) /*MARK_E*/); }})"), t, false, &mut s);
+        scenario(
+            "explicit",
+            &format!("{f}.each_call(matching!({pat}) /*MARK_C*/).panics(\"boom-text\")"),
+            t,
+            false,
+            &mut s,
+        );
+        scenario(
+            "twice",
+            &format!("{f}.some_call(matching!({pat}) /*MARK_D*/).returns(1u8)"),
+            t,
+            true,
+            &mut s,
+        );
+        scenario(
+            "nooutput",
+            &format!("{f}.stub(|each| {{ each.call(matching!({pat}) /*MARK_E*/); }})"),
+            t,
+            false,
+            &mut s,
+        );
+        // the same three errors raised by the SECOND pattern of the method (an earlier pattern rejects the call)
+        let arity = c.pattern.tys.len() + c.extras.len();
+        if arity >= 1 {
+            let decoy = format!("({}) if false", vec!["_"; arity].join(", "));
+            scenario(
+                "explicit-2nd",
+                &format!("({f}.each_call(matching!({decoy})).returns(9u8),\n            {f}.each_call(matching!({pat}) /*MARK_H*/).panics(\"boom-text\"))"),
+                t,
+                false,
+                &mut s,
+            );
+            scenario(
+                "twice-2nd",
+                &format!("({f}.some_call(matching!({decoy})).returns(9u8),\n            {f}.some_call(matching!({pat}) /*MARK_I*/).returns(1u8))"),
+                t,
+                true,
+                &mut s,
+            );
+            scenario(
+                "nooutput-2nd",
+                &format!("{f}.stub(|each| {{\n            each.call(matching!({decoy})).returns(9u8);\n            each.call(matching!({pat}) /*MARK_J*/);\n        }})"),
+                t,
+                false,
+                &mut s,
+            );
+        }
         scenario(
             "wrongorder",
             &format!("({g}.next_call(matching!(7) /*MARK_F*/).returns(1u8), {f}.next_call(matching!({pat})).returns(1u8))"),
@@ -279,9 +395,27 @@ pub fn source(c: &MsgCase) -> String {
             false,
             &mut s,
         );
-        scenario("outofrange", &format!("{f}.next_call(matching!({pat})).returns(1u8)"), t, true, &mut s);
-        scenario("cannot-unmock", &format!("{f}.each_call(matching!({pat})).applies_unmocked()"), t, false, &mut s);
-        scenario("no-default-impl", &format!("{f}.each_call(matching!({pat})).applies_default_impl()"), t, false, &mut s);
+        scenario(
+            "outofrange",
+            &format!("{f}.next_call(matching!({pat})).returns(1u8)"),
+            t,
+            true,
+            &mut s,
+        );
+        scenario(
+            "cannot-unmock",
+            &format!("{f}.each_call(matching!({pat})).applies_unmocked()"),
+            t,
+            false,
+            &mut s,
+        );
+        scenario(
+            "no-default-impl",
+            &format!("{f}.each_call(matching!({pat})).applies_default_impl()"),
+            t,
+            false,
+            &mut s,
+        );
         // verification line naming the pattern
         s.push_str("    {\n");
         s.push_str(&format!("        let u = Unimock::new({f}.each_call(matching!({pat}) /*MARK_G*/).returns(1u8).n_times(2));\n"));
@@ -299,7 +433,9 @@ pub fn source(c: &MsgCase) -> String {
 
 fn line_of(src: &str, marker: &str) -> Option<usize> {
     // the driver prepends two lines to every case file
-    src.lines().position(|l| l.contains(marker)).map(|i| i + 1 + 2)
+    src.lines()
+        .position(|l| l.contains(marker))
+        .map(|i| i + 1 + 2)
 }
 
 pub fn judge(c: &MsgCase, line: &str) -> Result<CaseInfo, String> {
@@ -310,23 +446,31 @@ pub fn judge(c: &MsgCase, line: &str) -> Result<CaseInfo, String> {
     let mut classes: Vec<&'static str> = vec![];
     let mut mismatch_checked = false;
     for entry in line.split('\u{1}') {
-        let Some((tag, raw)) = entry.split_once('\u{3}') else { continue };
+        let Some((tag, raw)) = entry.split_once('\u{3}') else {
+            continue;
+        };
         let msg = strip_ansi(raw);
         let tuple = match tag {
             "nomatch" | "ordered-inputs" => rej.as_ref(),
             "nomock" => rej.as_ref().or(acc.as_ref()),
             _ => acc.as_ref(),
         };
-        let Some(tuple) = tuple else { return Err(format!("HARNESS: scenario {tag} without tuple")) };
+        let Some(tuple) = tuple else {
+            return Err(format!("HARNESS: scenario {tag} without tuple"));
+        };
         let call = c.call_debug(tuple);
         let ctx = format!("[{tag}] matching!({}) called as {call}", c.macro_args());
         if msg == "NOPANIC" {
-            return Err(format!("HARNESS: {ctx}: expected a mock-induced panic, none happened"));
+            return Err(format!(
+                "HARNESS: {ctx}: expected a mock-induced panic, none happened"
+            ));
         }
         match tag {
             "cannot-unmock" | "no-default-impl" => {
                 if !msg.contains("Tr::f") {
-                    return Err(format!("{ctx}: the message does not name Trait::method: {msg:?}"));
+                    return Err(format!(
+                        "{ctx}: the message does not name Trait::method: {msg:?}"
+                    ));
                 }
                 classes.push("names-method-only");
                 continue;
@@ -334,7 +478,9 @@ pub fn judge(c: &MsgCase, line: &str) -> Result<CaseInfo, String> {
             "verify" => {}
             _ => {
                 if !msg.starts_with(&call) {
-                    return Err(format!("{ctx}: the message does not render the call as {call:?}: {msg:?}"));
+                    return Err(format!(
+                        "{ctx}: the message does not render the call as {call:?}: {msg:?}"
+                    ));
                 }
             }
         }
@@ -347,23 +493,42 @@ pub fn judge(c: &MsgCase, line: &str) -> Result<CaseInfo, String> {
             "nooutput" => Some("MARK_E"),
             "wrongorder" => Some("MARK_F"),
             "verify" => Some("MARK_G"),
+            "explicit-2nd" => Some("MARK_H"),
+            "twice-2nd" => Some("MARK_I"),
+            "nooutput-2nd" => Some("MARK_J"),
             _ => None,
         };
         if let Some(marker) = marker {
-            let ln = line_of(&src, marker).ok_or_else(|| format!("HARNESS: marker {marker} not found"))?;
+            let ln = line_of(&src, marker)
+                .ok_or_else(|| format!("HARNESS: marker {marker} not found"))?;
             let loc_ok = msg.match_indices(".rs:").any(|(i, _)| {
                 let before = &msg[..i];
-                let after: String = msg[i + 4..].chars().take_while(|ch| ch.is_ascii_digit()).collect();
-                before.rsplit(|ch: char| ch.is_whitespace()).next().map(|p| p.contains("cases/c")).unwrap_or(false) && after == ln.to_string()
+                let after: String = msg[i + 4..]
+                    .chars()
+                    .take_while(|ch| ch.is_ascii_digit())
+                    .collect();
+                before
+                    .rsplit(|ch: char| ch.is_whitespace())
+                    .next()
+                    .map(|p| p.contains("cases/c"))
+                    .unwrap_or(false)
+                    && after == ln.to_string()
             });
             if !loc_ok {
                 return Err(format!("{ctx}: the message does not give the pattern's location (case file, line {ln}): {msg:?}"));
             }
-            let (path, want_doc) = if tag == "wrongorder" { ("Tr::g", "(7)".to_string()) } else { ("Tr::f", doc.clone()) };
+            let (path, want_doc) = if tag == "wrongorder" {
+                ("Tr::g", "(7)".to_string())
+            } else {
+                ("Tr::f", doc.clone())
+            };
             let named = format!("{path}{want_doc}");
             if !norm(&msg).contains(&norm(&named)) {
                 // weaker: the literal atoms of the pattern appear in order after the method path
-                let tail = msg.rsplit_once(path).map(|(_, t)| t.to_string()).unwrap_or_default();
+                let tail = msg
+                    .rsplit_once(path)
+                    .map(|(_, t)| t.to_string())
+                    .unwrap_or_default();
                 let mut pos = 0usize;
                 let mut ok = tag != "wrongorder";
                 for a in c.atoms() {
@@ -376,14 +541,22 @@ pub fn judge(c: &MsgCase, line: &str) -> Result<CaseInfo, String> {
                     }
                 }
                 if !ok {
-                    return Err(format!("{ctx}: the pattern is not named by its source text {named:?}: {msg:?}"));
+                    return Err(format!(
+                        "{ctx}: the pattern is not named by its source text {named:?}: {msg:?}"
+                    ));
                 }
                 classes.push("pattern-text-matched-by-atoms-only");
             }
             classes.push("pattern-named-with-location");
+            if tag.ends_with("-2nd") {
+                classes.push("error-raised-by-second-pattern-of-the-method");
+            }
         }
         // mismatch positions
-        if matches!(tag, "nomatch" | "ordered-inputs") && c.pattern.guard.is_none() && c.pattern.alts.len() == 1 {
+        if matches!(tag, "nomatch" | "ordered-inputs")
+            && c.pattern.guard.is_none()
+            && c.pattern.alts.len() == 1
+        {
             let alt = &c.pattern.alts[0];
             let mut expected_positions = vec![];
             for (i, (p, v)) in alt.iter().zip(tuple.iter()).enumerate() {
@@ -395,7 +568,10 @@ pub fn judge(c: &MsgCase, line: &str) -> Result<CaseInfo, String> {
             let mut reported = vec![];
             let mut rest = msg.as_str();
             while let Some(i) = rest.find("input #") {
-                let digits: String = rest[i + 7..].chars().take_while(|ch| ch.is_ascii_digit()).collect();
+                let digits: String = rest[i + 7..]
+                    .chars()
+                    .take_while(|ch| ch.is_ascii_digit())
+                    .collect();
                 if let Ok(k) = digits.parse::<usize>() {
                     reported.push((k, i));
                 }
@@ -434,9 +610,9 @@ pub fn judge(c: &MsgCase, line: &str) -> Result<CaseInfo, String> {
         classes.push(match tag {
             "nomatch" => "kind:no-matching-call-patterns",
             "ordered-inputs" => "kind:inputs-not-matched-in-call-order",
-            "explicit" => "kind:explicit-panic",
-            "twice" => "kind:cannot-return-twice",
-            "nooutput" => "kind:no-output-available",
+            "explicit" | "explicit-2nd" => "kind:explicit-panic",
+            "twice" | "twice-2nd" => "kind:cannot-return-twice",
+            "nooutput" | "nooutput-2nd" => "kind:no-output-available",
             "wrongorder" => "kind:wrong-order",
             "outofrange" => "kind:out-of-range",
             "nomock" => "kind:no-mock-implementation",
@@ -444,14 +620,32 @@ pub fn judge(c: &MsgCase, line: &str) -> Result<CaseInfo, String> {
             _ => "kind:other",
         });
     }
-    let has_ref_param = c.pattern.tys.iter().any(|t| matches!(t, Ty::StrRef | Ty::SliceRef))
-        || c.extras.iter().any(|e| matches!(e, Extra::RefU32 | Extra::RefRefU32 | Extra::MutU32 | Extra::RefNoDebug | Extra::SliceOfNoDebug));
+    let has_ref_param = c
+        .pattern
+        .tys
+        .iter()
+        .any(|t| matches!(t, Ty::StrRef | Ty::SliceRef))
+        || c.extras.iter().any(|e| {
+            matches!(
+                e,
+                Extra::RefU32
+                    | Extra::RefRefU32
+                    | Extra::MutU32
+                    | Extra::RefNoDebug
+                    | Extra::SliceOfNoDebug
+            )
+        });
     let arity = c.pattern.tys.len() + c.extras.len();
     let mut info = CaseInfo::new(arity >= 2 && has_ref_param && mismatch_checked);
     classes.sort();
     classes.dedup();
     info.classes = classes;
-    if c.extras.iter().any(|e| matches!(e, Extra::NoDebug | Extra::RefNoDebug | Extra::GenericNoDebug | Extra::SliceOfNoDebug)) {
+    if c.extras.iter().any(|e| {
+        matches!(
+            e,
+            Extra::NoDebug | Extra::RefNoDebug | Extra::GenericNoDebug | Extra::SliceOfNoDebug
+        )
+    }) {
         info.classes.push("non-Debug-argument(?)");
     }
     Ok(info)
@@ -468,8 +662,15 @@ pub fn case_strategy() -> impl Strategy<Value = MsgCase> {
         Just(Extra::GenericDebug),
         Just(Extra::SliceOfNoDebug),
     ];
-    (crate::c06::case_strategy(), proptest::collection::vec(extra, 0..=2), any::<u8>(), any::<bool>())
-        .prop_filter("needs at least one pattern argument", |(p, _, _, _)| !p.tys.is_empty())
+    (
+        crate::c06::case_strategy(),
+        proptest::collection::vec(extra, 0..=2),
+        any::<u8>(),
+        any::<bool>(),
+    )
+        .prop_filter("needs at least one pattern argument", |(p, _, _, _)| {
+            !p.tys.is_empty()
+        })
         .prop_map(|(mut pattern, mut extras, pick, simple)| {
             pattern.parenthesized = false;
             if simple {
@@ -480,15 +681,30 @@ pub fn case_strategy() -> impl Strategy<Value = MsgCase> {
             extras.dedup();
             // one generic of each kind at most
             let mut seen = std::collections::BTreeSet::new();
-            extras.retain(|e| !matches!(e, Extra::GenericNoDebug | Extra::GenericDebug) || seen.insert(format!("{e:?}")));
-            MsgCase { pattern, extras, pick }
+            extras.retain(|e| {
+                !matches!(e, Extra::GenericNoDebug | Extra::GenericDebug)
+                    || seen.insert(format!("{e:?}"))
+            });
+            MsgCase {
+                pattern,
+                extras,
+                pick,
+            }
         })
 }
 
 pub const RULE: &str = "programs = C06's pattern grammar (1-4 pattern-typed arguments) extended by 0-2 extra parameters {type without Debug, reference to it, &u32, &&u32, &mut u32, generic without / with Debug bound, slice of non-Debug values}; for each pattern one rejected and one accepted argument tuple of the finite domain are chosen and every mock-induced error kind is triggered on a fresh mock: no matching call patterns, inputs not matched in call order, explicit panic, value returned twice, no output available, wrong order, out of range, no mock implementation, cannot unmock, no default impl, plus a failed verification naming the pattern. Non-trivial = arity >= 2 with a reference parameter and a checked mismatch report; distinct = distinct case";
 
 fn spec<'a>(prelude: &'a str) -> Spec<'a, MsgCase> {
-    Spec { project: "C19", prelude, source: &source, judge: &judge, nbins: 16, max_shrink_steps: 30, extra_deps: "" }
+    Spec {
+        project: "C19",
+        prelude,
+        source: &source,
+        judge: &judge,
+        nbins: 16,
+        max_shrink_steps: 30,
+        extra_deps: "",
+    }
 }
 
 pub fn run(ctx: &Ctx) -> Verdict {
@@ -499,13 +715,28 @@ pub fn run(ctx: &Ctx) -> Verdict {
         "only the parts the property names are compared, never the full wording".into(),
     ];
     let prelude = prelude();
-    v.subs.push(crate::replay_corpus(ctx, &|sub, case| replay(sub, case)));
+    v.subs
+        .push(crate::replay_corpus(ctx, &|sub, case| replay(sub, case)));
     let n = ctx.tier.pick(960, 16_000) as usize;
     let batches = n.div_ceil(1200);
     for b in 0..batches {
-        let sub = if batches == 1 { "messages".to_string() } else { format!("messages-{b}") };
-        v.subs.push(e2::run(ctx, &sub, case_strategy(), (n / batches).max(1), &spec(&prelude)));
-        if v.subs.last().map(|s| s.failure.is_some() || s.inconclusive.is_some()).unwrap_or(false) {
+        let sub = if batches == 1 {
+            "messages".to_string()
+        } else {
+            format!("messages-{b}")
+        };
+        v.subs.push(e2::run(
+            ctx,
+            &sub,
+            case_strategy(),
+            (n / batches).max(1),
+            &spec(&prelude),
+        ));
+        if v.subs
+            .last()
+            .map(|s| s.failure.is_some() || s.inconclusive.is_some())
+            .unwrap_or(false)
+        {
             break;
         }
     }
